@@ -16,7 +16,8 @@ Oracle clauses (violation keys ``C15/<harness>/<copy|buffered>/<clause>[/<site>]
                       *every* complete frame
   request-after-close nothing is delivered after the handler closed the client
   timeout-unjustified TimeoutError was thrown although the completing byte of the awaited request had become visible on
-                      the socket strictly before the deadline (exact ties accept both outcomes)
+                      the socket strictly before the deadline (exact ties accept both outcomes; a yielded timeout of 0
+                      is a single poll and only counted, see check_timeout)
   spurious-close      the active generator was closed although neither the peer disconnected nor the handler closed
   unexpected-exception something else than a parse error / TimeoutError / a justified transport error reached the handler
   generator-close     every generator instance that was started ran its ``finally`` exactly once by the time the
@@ -54,7 +55,7 @@ RULE = (
     "max_recv_size in {16384,1,2,3,5,8,64}; 1-3 peers, each a stream of 1-6 frames of kinds {valid, undecodable, empty(line only)} plus an "
     "optional unterminated tail, written in 1..n segments at virtual times on a 1/64 s grid through a link with fragmentation "
     "{whole, byte, fixed, random} and per-fragment delays, ended by FIN or RST; handler shape per connection: requests per handle() "
-    "generator 1-4 (restart), yielded timeouts {None, 2,8,32}/64 s, processing sleeps, on_connection coroutine / async generator "
+    "generator 1-4 (restart), yielded timeouts {None, 0, 1/1024, 2/64, 8/64, 32/64} s, processing sleeps, on_connection coroutine / async generator "
     "consuming 0-2 requests, aclose()/raise at request r, parse errors caught or re-raised, TimeoutError continue/return/re-raise; "
     "selector hold/reorder/spurious readiness; rare injected recv() error. Non-trivial run = a fault kind fired and >=1 request observed."
 )
@@ -122,7 +123,7 @@ def _reference(fresh, stream: bytes) -> tuple[list[tuple], list[int]]:
 
 
 # ------------------------------------------------------------------------------------------------ scenario
-TIMEOUTS = (None, 8 * G, 32 * G, 2 * G)
+TIMEOUTS = (None, 8 * G, 32 * G, 2 * G, 0.0, G / 16)  # 0.0 = "only if a request is already there" poll
 SLEEPS = (0.0, 0.0, 4 * G, 16 * G)
 GAPS = (0, 0, 1, 2, 4, 8, 16, 32)
 A_NONE, A_CLOSE_RETURN, A_CLOSE_YIELD, A_RAISE = 0, 1, 2, 3
@@ -212,7 +213,7 @@ def _gen_conn(world: World, fam: int, k: int, level: str, calm: bool) -> dict:
     plan = {
         "oc": world.choose("oc", 4) if level == "high" else 0,  # 0 coroutine, 1/2 asyncgen consuming 1/2 requests, 3 asyncgen without yield
         "gen_lens": [1 + world.choose("genlen", 4) for _ in range(8)] if level == "high" else [0 if not world.chance("ll_return", 1, 4) else 1 + world.choose("ll_n", 4)],
-        "timeouts": [world.choose("tmo", 4) for _ in range(n_items)],
+        "timeouts": [world.choose("tmo", len(TIMEOUTS)) for _ in range(n_items)],
         "sleeps": [world.choose("sleep", 4) for _ in range(n_items)],
         "end_at": world.choose("end_at", n_items + 1),  # 0 = the handler never ends the connection itself
         "end_kind": 1 + world.choose("end_kind", 2 if calm else 3),
@@ -448,6 +449,16 @@ class Ctx:
         if tv is None:
             return
         slack = world.creep_iterations * World.CREEP
+        if T == 0:
+            # An already expired deadline is a single poll: the receiver is cancelled at its first checkpoint.  A request
+            # that is complete on the socket / in the transport's buffer but has not been pulled into the consumer yet
+            # is then answered with TimeoutError (nothing is lost; it is delivered by the next wait).  Whether "it was
+            # already there" holds is not decidable from outside (same rule as DESIGN C11 for T == 0), so only the
+            # exactly-once / in-order clauses apply to such a wait.  Counted, not asserted.
+            world.probe("timeout_zero_poll")
+            if tv + slack < t0:
+                world.probe("timeout_zero_poll_while_request_visible")
+            return
         if tv == t0 + T:
             world.probe("timeout_exact_tie")
         if tv + slack < t0 + T:
